@@ -267,6 +267,43 @@ func decDomain(fd int, rng yang.YangRange) []Value {
 
 var stringCands = []string{"a", "a/b]=\\[x", "ab c", "é✓", "abc", "x:y", ""}
 
+// bigLeafList returns a leaf-list value of 20 distinct values in DESCENDING order for leaf-lists of
+// unrestricted strings or integers (NoValue otherwise): the input for code paths that switch
+// strategy above a size threshold (sorting, hashing, chunking) where the 1-2 element values never go.
+func bigLeafList(e *yang.Entry, sample Value) Value {
+	const n = 20
+	if e == nil || e.Type == nil || (e.ListAttr != nil && e.ListAttr.MaxElements != 0 && e.ListAttr.MaxElements < n) {
+		return NoValue
+	}
+	t := e.Type
+	var vs []Value
+	switch t.Kind {
+	case yang.Ystring:
+		if len(t.Length) != 0 || len(t.Pattern) != 0 || len(t.POSIXPattern) != 0 {
+			return NoValue
+		}
+		for i := n; i >= 1; i-- {
+			vs = append(vs, Value(fmt.Sprintf("str:m%02d", i)))
+		}
+	case yang.Yint8, yang.Yint16, yang.Yint32, yang.Yint64, yang.Yuint8, yang.Yuint16, yang.Yuint32, yang.Yuint64:
+		pfx := string(sample)
+		if i := strings.Index(pfx, ":"); i > 0 {
+			pfx = pfx[:i+1]
+		} else {
+			return NoValue
+		}
+		for i := n; i >= 1; i-- {
+			if !InRanges(t.Range, new(big.Rat).SetInt64(int64(i))) {
+				return NoValue
+			}
+			vs = append(vs, Value(pfx+strconv.Itoa(i)))
+		}
+	default:
+		return NoValue
+	}
+	return LL(vs...)
+}
+
 func lenOK(rng yang.YangRange, n int) bool {
 	return InRanges(rng, new(big.Rat).SetInt64(int64(n)))
 }
@@ -610,6 +647,11 @@ func (p *Pkg) deriveIn(st reflect.Type, se *yang.Entry, steps []Step, prefix Pat
 					vals = []Value{LL(e1), LL()}
 				}
 			}
+			if !nested {
+				if big := bigLeafList(ce, e1); big != NoValue {
+					vals = append(vals, big)
+				}
+			}
 			for j, v := range vals {
 				a := mk("leaflist", v, j == 1 || len(vals) == 1, fsteps, fpath)
 				if nested {
@@ -675,6 +717,15 @@ func (p *Pkg) deriveIn(st reflect.Type, se *yang.Entry, steps []Step, prefix Pat
 			if !nested && len(keyNames) == 1 && len(doms[0]) >= 3 {
 				ntuples = 3
 			}
+			if !nested && len(keyNames) >= 2 {
+				allStr := true
+				for _, d := range doms {
+					allStr = allStr && d[0].Kind() == "str"
+				}
+				if allStr {
+					ntuples = 3 // the third tuple of an all-string multi-key list has an empty key, see below
+				}
+			}
 			idxs := []int{0, -1, 1}
 			seen := map[string]bool{}
 			nstr := 0
@@ -687,10 +738,16 @@ func (p *Pkg) deriveIn(st reflect.Type, se *yang.Entry, steps []Step, prefix Pat
 				var tuple []Value
 				if nstr >= 2 && nstr == len(doms) {
 					// adversarial pair: the tuples differ but their space-joined renderings coincide
-					if ti == 0 {
+					switch ti {
+					case 0:
 						tuple = append(tuple, "str:a b", "str:c")
-					} else {
+					case 1:
 						tuple = append(tuple, "str:a", "str:b c")
+					default:
+						// a key that is the empty string (legal for a YANG string key, representable in a
+						// structured gNMI path) next to an entry with the same first key: code that takes
+						// "" for "key not given" confuses the two
+						tuple = append(tuple, "str:a", "str:")
 					}
 					for len(tuple) < len(doms) {
 						tuple = append(tuple, "str:z")
